@@ -52,14 +52,24 @@ pub fn flat_tokens(text: &str) -> Vec<String> {
         if pending.is_empty() {
             return;
         }
-        if OPS.contains(&pending.as_str()) {
-            out.push(std::mem::take(pending));
-        } else {
-            for c in pending.chars() {
-                out.push(c.to_string());
+        // greedy longest-match split of the run into operators, else single characters
+        let chars: Vec<char> = pending.chars().collect();
+        let mut i = 0;
+        while i < chars.len() {
+            let mut taken = 1;
+            for len in (2..=3usize).rev() {
+                if i + len <= chars.len() {
+                    let cand: String = chars[i..i + len].iter().collect();
+                    if OPS.contains(&cand.as_str()) {
+                        taken = len;
+                        break;
+                    }
+                }
             }
-            pending.clear();
+            out.push(chars[i..i + taken].iter().collect());
+            i += taken;
         }
+        pending.clear();
     };
     for t in raw {
         if let Some(c) = t.strip_suffix('\u{1}') {
@@ -73,6 +83,39 @@ pub fn flat_tokens(text: &str) -> Vec<String> {
         }
     }
     flush(&mut pending, &mut out);
+    out
+}
+
+/// Token sequence modulo what formatters treat as layout: trailing commas before a closing
+/// delimiter and the spelling of string literals (`///` comments re-lex as raw strings).
+pub fn layout_neutral_tokens(text: &str) -> Vec<String> {
+    let mut toks: Vec<String> = vec![];
+    for t in flat_tokens(text) {
+        match t.as_str() {
+            // closing generic brackets lex as shift operators when adjacent
+            ">>" => toks.extend([">".to_string(), ">".to_string()]),
+            "<<" => toks.extend(["<".to_string(), "<".to_string()]),
+            ">>=" => toks.extend([">".to_string(), ">".to_string(), "=".to_string()]),
+            _ => toks.push(t),
+        }
+    }
+    let mut out: Vec<String> = Vec::with_capacity(toks.len());
+    for (i, t) in toks.iter().enumerate() {
+        if t == "," {
+            if let Some(n) = toks.get(i + 1) {
+                if n == ")" || n == "]" || n == "}" || n == ">" {
+                    continue;
+                }
+            }
+        }
+        if t.starts_with("r\"") || t.starts_with("r#") || t.starts_with('"') {
+            if let Ok(l) = syn::parse_str::<syn::LitStr>(t) {
+                out.push(format!("{:?}", l.value()));
+                continue;
+            }
+        }
+        out.push(t.clone());
+    }
     out
 }
 
